@@ -71,6 +71,19 @@ def what_appended(node):
     return m
 
 
+def _balanced_outer(t):
+    """is the first '(' of t closed by its last ')' ?"""
+    depth = 0
+    for i, ch in enumerate(t):
+        if ch == "(":
+            depth += 1
+        elif ch == ")":
+            depth -= 1
+            if depth == 0 and i != len(t) - 1:
+                return False
+    return depth == 0
+
+
 def run(chk, prog):
     chk.assume("effect summaries are computed for the CPU code path; library calls are summarised by their pointer arguments",
                "H5 library: one _appendData call extends a dataset by one record")
@@ -496,7 +509,10 @@ def run(chk, prog):
     times = set()
     for v, m_, args, n in lc + fc:
         if m_ == "append" and len(args) == 3:
-            times.add(args[1])
+            t_ = args[1]
+            while t_.startswith("(") and t_.endswith(")") and _balanced_outer(t_):
+                t_ = t_[1:-1]
+            times.add(t_)
     chk.check(times == {"static_cast<double>(simulationstep)/steps"} or times == {"double(simulationstep)/steps"}, "R4", A.loc(mainf, ob),
               "the stored time is simulationstep/steps (synchrotron periods) at every record (%s)" % sorted(times), "main:time-expression:%s" % sorted(times))
     # final block reached from the loop exit on every path when hdf_file != nullptr
